@@ -122,3 +122,119 @@ impl Drop for Proxy {
         self.cut();
     }
 }
+
+
+/// UDP relay in front of a QUIC node: one upstream socket per client source address (litep2p's QUIC
+/// dialer binds a fresh client endpoint per dial, so a flow is one connection).  `cut` black-holes
+/// the current flows (the peers notice through quinn's idle timeout), `block` ignores new flows.
+pub struct UdpProxy {
+    pub addr: SocketAddr,
+    blocked: Arc<AtomicBool>,
+    /// generation counter: flows created before the last cut are dead
+    gen: Arc<AtomicU64>,
+    live: Arc<AtomicU64>,
+    task: JoinHandle<()>,
+}
+
+impl UdpProxy {
+    pub async fn start(target: SocketAddr) -> UdpProxy {
+        use std::collections::HashMap;
+        use tokio::net::UdpSocket;
+        let front = Arc::new(UdpSocket::bind("127.0.0.1:0").await.expect("udp proxy bind"));
+        let addr = front.local_addr().unwrap();
+        let blocked = Arc::new(AtomicBool::new(false));
+        let gen = Arc::new(AtomicU64::new(0));
+        let live = Arc::new(AtomicU64::new(0));
+        let (b2, g2, l2) = (blocked.clone(), gen.clone(), live.clone());
+        let task = tokio::spawn(async move {
+            // client address -> (generation, upstream socket)
+            let mut flows: HashMap<SocketAddr, (u64, Arc<UdpSocket>)> = HashMap::new();
+            let mut buf = vec![0u8; 65536];
+            loop {
+                let Ok((n, from)) = front.recv_from(&mut buf).await else { break };
+                let g = g2.load(Ordering::SeqCst);
+                if let Some((fg, up)) = flows.get(&from) {
+                    if *fg == g {
+                        let _ = up.send(&buf[..n]).await;
+                    }
+                    continue; // a dead flow stays dead (black hole)
+                }
+                if b2.load(Ordering::SeqCst) {
+                    continue;
+                }
+                let Ok(up) = UdpSocket::bind("127.0.0.1:0").await else { continue };
+                if up.connect(target).await.is_err() {
+                    continue;
+                }
+                let up = Arc::new(up);
+                flows.insert(from, (g, up.clone()));
+                l2.fetch_add(1, Ordering::SeqCst);
+                let _ = up.send(&buf[..n]).await;
+                let (front2, g3) = (front.clone(), g2.clone());
+                tokio::spawn(async move {
+                    let mut b = vec![0u8; 65536];
+                    loop {
+                        let Ok(n) = up.recv(&mut b).await else { break };
+                        if g3.load(Ordering::SeqCst) != g {
+                            break;
+                        }
+                        let _ = front2.send_to(&b[..n], from).await;
+                    }
+                });
+            }
+        });
+        UdpProxy { addr, blocked, gen, live, task }
+    }
+
+    pub fn cut(&self) -> usize {
+        self.gen.fetch_add(1, Ordering::SeqCst);
+        self.live.swap(0, Ordering::SeqCst) as usize
+    }
+
+    pub fn block(&self, on: bool) {
+        self.blocked.store(on, Ordering::SeqCst);
+    }
+}
+
+impl Drop for UdpProxy {
+    fn drop(&mut self) {
+        self.task.abort();
+    }
+}
+
+/// The link between X and Y.
+pub enum Link {
+    Tcp(Proxy),
+    Udp(UdpProxy),
+}
+
+impl Link {
+    pub fn addr(&self) -> SocketAddr {
+        match self {
+            Link::Tcp(p) => p.addr,
+            Link::Udp(p) => p.addr,
+        }
+    }
+    pub fn cut(&self) -> usize {
+        match self {
+            Link::Tcp(p) => p.cut(),
+            Link::Udp(p) => p.cut(),
+        }
+    }
+    pub fn block(&self, on: bool) {
+        match self {
+            Link::Tcp(p) => p.block(on),
+            Link::Udp(p) => p.block(on),
+        }
+    }
+    /// only the stream proxy can stall a link without losing bytes
+    pub fn freeze(&self, on: bool) -> bool {
+        match self {
+            Link::Tcp(p) => {
+                p.freeze(on);
+                true
+            }
+            Link::Udp(_) => false,
+        }
+    }
+}
